@@ -80,7 +80,8 @@ def gen_world(rng):
         con = {"id": f"c{k}", "kind": kind, "cands": cands,
                "atype": w_type if rng.random() < 0.8 else rng.choice(["CARD_COMPARISON", "ONEAUDIT", "POLLING"]),
                "style": s_style if rng.random() < 0.88 else (not s_style),
-               "share": rng.choice([F(1, 2), F(5, 8), F(3, 4), F(2, 3), F(1, 4), F(9, 16), F(3, 5)])}
+               "share": rng.choice([F(1, 2), F(5, 8), F(3, 4), F(2, 3), F(1, 4), F(9, 16), F(3, 5), F(3, 8), F(1, 3), F(2, 5)]),
+               "direct": rng.random() < 0.5}     # super-majority: Assertion.make_supermajority_assertion called directly
         if kind == "irv":
             ja = []
             for _ in range(rng.randint(1, 2)):
@@ -268,6 +269,12 @@ def build_contests(M, NonnegMean, spec, n_cards):
             d[con["id"]]["assertion_json"] = copy.deepcopy(con["json"])
     contests = M.Contest.from_dict_of_dicts(d)
     M.Assertion.make_all_assertions(contests)
+    for con in spec["cons"]:
+        if con["kind"] == "super" and con.get("direct"):
+            # the way the library's own unit test builds it: no share_to_win keyword, the share is the contest's
+            c = contests[con["id"]]
+            c.assertions = M.Assertion.make_supermajority_assertion(
+                contest=c, winner="A", loser=[x for x in con["cands"] if x != "A"], test=c.test, estim=c.estim)
     return contests
 
 
@@ -461,7 +468,7 @@ def run_world(rng, spec):
                 impl_means = ("raise", rc[1])
                 hit("set_tally_pool_means raised " + rc[1])
         # margin
-        how = wr.choice(["cvrs", "cvrs", "cvrs", "twice", "direct"])
+        how = wr.choice(["cvrs", "cvrs", "setall", "setall", "twice", "direct"])
         if how == "direct":
             mg = wr.choice([F(1, 4), F(1, 8), F(3, 8), F(1, 64), F(0), F(-1, 8), F(1, 2), F(1)])
             asn.margin = float(mg)
@@ -471,7 +478,11 @@ def run_world(rng, spec):
                 audit.strata["s"].use_style = not s_style
                 call(lambda: asn.set_margin_from_cvrs(audit, cvrs[: max(1, n // 2)]))
                 audit.strata["s"].use_style = s_style
-            rc = call(lambda: asn.set_margin_from_cvrs(audit, cvrs))
+            if how == "setall":     # Assertion.set_all_margins_from_cvrs: every assertion of every contest, this one included
+                rc = call(lambda: M.Assertion.set_all_margins_from_cvrs(audit=audit, contests=contests, cvr_list=cvrs))
+                hit("margin from set_all_margins_from_cvrs (per-assertion stage)")
+            else:
+                rc = call(lambda: asn.set_margin_from_cvrs(audit, cvrs))
             margin_given = None
             if rc[0] != "ok":
                 hit("set_margin_from_cvrs raised")
@@ -552,6 +563,8 @@ def run_world(rng, spec):
             if dv and not mvrs[mi].phantom:
                 hit(f"discrepancy {'+' if dv > 0 else '-'}{round(float(abs(dv) / ua), 2)} u")
         hit(f"assertion {con['kind']}/{con['atype']}/style={c_style}")
+        if con["kind"] == "super" and con.get("direct"):
+            hit("super-majority assertion built by a direct call, share " + ("< 1/2" if con["share"] < F(1, 2) else ">= 1/2"))
     # ---- all assertions together: margins set in different ways, then set_p_values
     sp = run_spv(M, ids, wr, spec, contests, audit, cvrs, mvrs, sample, all_asns, tabs, [clit(o) for o in objs], hit, out)
     out["spv"].append(sp)
@@ -562,7 +575,7 @@ def oracle_identity(asn, cid, ua, cvrs, mvrs, tab, n, style, margin):
     """C03 on the implementation's numbers: mean(B) - 1/2 == (2 mean(Abar) - 1) / (2 (2u - v)) over the cards under audit."""
     bad = []
     scope = [i for i in range(n) if (not style) or cvrs[i].has_contest(cid)]
-    if not scope or margin != margin:
+    if not scope or margin != margin or abs(margin) == float("inf"):
         return bad
     # phantom CVRs outside pools must be blank-like for the assorter (1/2); the shipped assorters satisfy this
     for i in scope:
@@ -599,7 +612,7 @@ def oracle_data(asn, con, cid, ua, s_mvrs, s_cvrs, thr, use_all, impl_data, marg
     bad = []
     style, polling = con["style"], con["atype"] == "POLLING"
     means = asn.assorter.tally_pool_means
-    if margin != margin:
+    if margin != margin or abs(margin) == float("inf"):
         return bad
     v = C.frac(margin)
     if not polling and not (0 < v < 2 * ua):          # the property is about positive margins
@@ -636,6 +649,16 @@ def oracle_data(asn, con, cid, ua, s_mvrs, s_cvrs, thr, use_all, impl_data, marg
                     {"n_data": len(d), "expected_cards": contributing, "threshold": str(thr), "use_all": use_all,
                      "sample_nums": [str(c.sample_num) for c in s_cvrs]}))
     elif not polling:
+        # any contributing card may turn out to be unfindable (phantom manual record): that datum must be in [0, u] too
+        M, _ = lib()
+        for i in contributing:
+            r3 = call(lambda: asn.overstatement_assorter(M.CVR(id=s_cvrs[i].id, votes={}, phantom=True), s_cvrs[i],
+                                                         use_style=style))
+            if r3[0] == "ok" and fl(r3[1]) == fl(r3[1]) and (C.frac(fl(r3[1])) < -TOL or C.frac(fl(r3[1])) > fu + TOL):
+                bad.append(("the datum of a sampled card whose ballot cannot be found lies outside [0, u]",
+                            {"card": i, "datum": fl(r3[1]), "u": u, "assort(cvr)": C.jsonable(fl(asn.assorter.assort(s_cvrs[i]))),
+                             "assorter upper_bound": C.jsonable(asn.assorter.upper_bound)}))
+                break
         for x, i in zip(d, contributing):
             r2 = call(lambda: asn.overstatement_assorter(s_mvrs[i], s_cvrs[i], use_style=style))
             if r2[0] != "ok" or abs(C.frac(fl(r2[1])) - C.frac(x)) > TOL:
@@ -731,7 +754,7 @@ def run_spv(M, ids, wr, spec, contests, audit, cvrs, mvrs, sample, all_asns, tab
             key, u_call, d_call = log[k]
             margin = fl(asn.margin)
             ua = C.frac(asn.assorter.upper_bound)
-            if margin != margin or u_ret != u_ret or abs(u_ret) == float("inf"):
+            if margin != margin or abs(margin) == float("inf") or u_ret != u_ret or abs(u_ret) == float("inf"):
                 continue
             if con["atype"] != "POLLING" and not (0 < C.frac(margin) < 2 * ua):
                 continue
